@@ -21,7 +21,7 @@
 (* rest of that session is skipped (`taint`) - the debugger's control      *)
 (* state is not logged, so it cannot be re-adopted reliably.               *)
 (***************************************************************************)
-EXTENDS TraceCommon, Debugger
+EXTENDS TraceCommon, Debugger, CmdLang
 
 VARIABLES l, bad, taint, pure
 tvars == << l, bad, taint, pure >>
@@ -87,15 +87,17 @@ TLoopDetached ==
 
 (* ----------------------------------------------------------------- cmd *)
 SortedNoDup(s) == \A i \in 1 .. Len(s) - 1 : s[i] < s[i + 1]
+(* C14: when the event carries the raw command line, the command is what CmdLang says it is *)
+CmdOf(e) == IF "chars" \in DOMAIN e THEN ParseLine(e.chars) ELSE e.c
 TCmd ==
   /\ Ev.ev = "cmd"
-  /\ DCmd(Ev.c, Ev.reg[1])
+  /\ DCmd(CmdOf(Ev), Ev.reg[1])
   /\ SameSt(Obs(Ev), st')
   /\ { Ev.bps[k] : k \in 1 .. Len(Ev.bps) } = bps' /\ SortedNoDup(Ev.bps)
   /\ (text' # << "?" >> => Ev.err = text')
   /\ Ev.post = tags'                      \* printed by the status machine right after the command
   /\ Ev.out = lastOut'
-  /\ (Ev.c.n \in {"quit", "eof"} <=> Ev.det)
+  /\ (CmdOf(Ev).n \in {"quit", "eof"} <=> Ev.det)
 
 (* ---------------------------------------------------------------- exec *)
 ExecMatches ==
@@ -155,7 +157,7 @@ Reason ==
   CASE Ev.ev = "stop" /\ Ev.kind = "fuel" -> "no-progress"
     [] Ev.ev = "stop" /\ Ev.kind = "panic" -> "panic"
     [] attached /\ status.k = "over" /\ status.depth > 0 /\ st.pc = status.ret -> "step-over-reentered"
-    [] Ev.ev = "cmd" -> "cmd:" \o Ev.c.n
+    [] Ev.ev = "cmd" -> "cmd:" \o CmdOf(Ev).n
     [] OTHER -> Ev.ev
 
 TResync ==
